@@ -60,6 +60,14 @@ func (w *World) ProjectName(m Req) string {
 	return ""
 }
 
+// TagRev is the 1-based revision index a version is tagged on (0 = no such tag).
+func (w *World) TagRev(p, v string) int {
+	if t := w.tags[p][v]; t != nil {
+		return t.rev.idx
+	}
+	return 0
+}
+
 // TaggedVersions lists the tagged versions of a module path in ascending semver order.
 func (w *World) TaggedVersions(p string) []string {
 	var vs []string
@@ -345,7 +353,8 @@ func (w *World) Resolve(q Query, current map[string]string) (string, bool) {
 		if rev == nil {
 			return "", false
 		}
-		return w.refVersion(q.Path, rev), true
+		v := w.refVersion(q.Path, rev)
+		return v, v != ""
 	}
 	panic("bad query kind " + q.Kind)
 }
